@@ -40,17 +40,17 @@ func waitLive(n *node, d time.Duration, cond func() bool) bool {
 func followerName(i int) string { return fmt.Sprintf("f%d", i) }
 
 type leaderRun struct {
-	n       *node
-	lc      server.LeaderController
-	rpc     *rpcStub
-	rf      int
-	acked   []int64
-	issued  int64
-	done    atomic.Int64 // client callbacks completed (ok or error)
-	nIssued int64
-	sessionCalls atomic.Int64 // CreateSession calls of the harness that have not returned
-	nextCtx context.Context // the context of the next write (a client that may give up)
-	refused bool            // a generated request was not accepted by the leader: the schedule cannot be followed
+	n            *node
+	lc           server.LeaderController
+	rpc          *rpcStub
+	rf           int
+	acked        []int64
+	issued       int64
+	done         atomic.Int64 // client callbacks completed (ok or error)
+	nIssued      int64
+	sessionCalls atomic.Int64    // CreateSession calls of the harness that have not returned
+	nextCtx      context.Context // the context of the next write (a client that may give up)
+	refused      bool            // a generated request was not accepted by the leader: the schedule cannot be followed
 }
 
 func startLeader(n *node, rf int, term int64, heads *proto.EntryId) (*leaderRun, error) {
